@@ -479,7 +479,8 @@ var specs = map[string]*CheckSpec{
 	},
 	"C01": {
 		ID: "C01", Patterns: []string{vmPkg}, NeedShapes: true, NeedHelper: true,
-		Runs: []HarnessRun{{Pkg: vmPkg, Dir: "internal/machine/vm", Mod: "ledger", Fn: "ZZ_C01", Shapes: allShapes, Cfg: func(tier string) interp.Config { c := vmCfg(tier); c.PanicIsViolation = false; return c }, Desc: shapeDesc, Canary: 5}},
+		Runs: []HarnessRun{{Pkg: vmPkg, Dir: "internal/machine/vm", Mod: "ledger", Fn: "ZZ_C01", Shapes: allShapes, Cfg: func(tier string) interp.Config { c := vmCfg(tier); c.PanicIsViolation = false; return c }, Desc: shapeDesc, Canary: 5},
+			{Pkg: vmPkg, Dir: "internal/machine/vm", Mod: "ledger", Fn: "ZZ_C01Save", Shapes: countShapes(vmPkg, "ZZ_C01SaveN"), Cfg: vmCfg, Desc: harnessDesc(vmPkg, "ZZ_C01SaveDesc", "save:"), CanaryShapes: []int{3}}},
 		Bounds:      numgenBounds,
 		Assumptions: vmStubs,
 		Encoded:     []string{"vm.Run", "vm.(*Machine).Execute/tick/withdrawAll/withdrawAlways/credit/repay", "vm.(*Machine).ResolveResources/ResolveBalances/SetVarsFromJSON", "machine.Funding.Take/TakeMax/Concat/Total/Reverse", "machine.Allotment.Allocate", "machine.NewAllotment", "machine.MonetaryInt.*", "machine.NewValueFromString", "machine.ParseMonetary", "program.(*Program).ParseVariablesJSON"},
